@@ -53,6 +53,24 @@ def analyse(text):
             for h in e.highlights[:1]:
                 bad.add((h.lineno, h.column))
     nbad_errors = sum(1 for e in errlist if e.name == "BAD_LEXEME")
+    if errlist:
+        # "the position printed with a diagnostic points at the offending character": what the human-readable report
+        # prints for each lexical diagnostic is its earliest highlight (several highlights: the later ones are hints)
+        import types
+        shim = types.SimpleNamespace(basename="t.c", path="t.c", errors=errs)
+        try:
+            printed = [(int(m.group(1)), int(m.group(2))) for m in _PRINTED.finditer(impl.format_files([shim], "humanized"))]
+        except Exception as e:  # noqa: BLE001
+            printed = None
+            fails.append(("printed", f"printed:formatter-exception:{type(e).__name__}", str(e)[:120]))
+        if printed is not None:
+            want = [min((h.lineno, h.column) for h in e.highlights) for e in errlist if e.highlights]
+            if printed != want:
+                k = next((i for i, (a, b) in enumerate(zip(printed, want)) if a != b), min(len(printed), len(want)))
+                code = errlist[k].name if k < len(errlist) else "?"
+                fails.append(("printed", f"printed:{code}:not-the-earliest-highlight",
+                              f"the report prints {printed[k] if k < len(printed) else None} for {code}, its earliest highlight is "
+                              f"{want[k] if k < len(want) else None}"))
     al = lexref.align(text, toks, bad, want=[t.pos for t in toks])
     if not al["ok"]:
         # no alignment agrees with the reported positions: judge the first alignment that exists
@@ -103,6 +121,10 @@ def analyse(text):
                     fails.append(("relex", "relex", f"re-lexing the concatenated token texts {norm!r} gives other tokens"))
     sig = tuple(t.type for t in toks)
     return fails, sig
+
+
+import re as _re
+_PRINTED = _re.compile(r"\(line:\s*(\d+), col:\s*(\d+)\):")
 
 
 def _cls(ch):
